@@ -72,7 +72,9 @@ class Namer(hioing.Mixin):
         self._addrByName = dict()
         self._nameByAddr = dict()
 
-        if helping.isNonStringIterable(entries):
+        if hasattr(entries, "items"):  # dict first: it is also a non-string iterable (of its keys only)
+            items = entries.items()
+        elif helping.isNonStringIterable(entries):
             items = entries
         else:
             items = entries.items() if entries else []
